@@ -1,5 +1,5 @@
 import Std.Tactic.BVDecide
-import GlmVerif.Hand.C06
+import GlmVerif.Props.C06.Enum
 /-!
 # C06 (f) — the unsigned small floats of `packF2x11_1x10` (11-bit: 5e6m, 10-bit: 5e5m)
 
@@ -127,48 +127,32 @@ theorem unpackF2x11_1x10_idem (v : UInt32) :
 
 /-! ### model = specification (`Spec.smallFloatBits`, `Spec.smallFloatEncode`), kernel enumeration
 of all 2048 / 1024 codes (independent of `bv_decide`) -/
-def allPowSF (p : Nat → Bool) : Nat → Nat → Bool
-  | 0, lo => p lo
-  | d+1, lo => allPowSF p d lo && allPowSF p d (lo + 2^d)
-theorem allPowSF_spec (p : Nat → Bool) : ∀ d lo, allPowSF p d lo = true →
-    ∀ k, lo ≤ k → k < lo + 2^d → p k = true := by
-  intro d
-  induction d with
-  | zero => intro lo h k h1 h2; simp [allPowSF] at h; have : k = lo := by omega
-            subst this; exact h
-  | succ d ih =>
-    intro lo h k h1 h2
-    simp [allPowSF] at h
-    by_cases hk : k < lo + 2^d
-    · exact ih lo h.1 k h1 hk
-    · exact ih (lo + 2^d) h.2 k (by omega) (by rw [Nat.pow_succ] at h2; omega)
-
 set_option maxRecDepth 100000 in
-theorem f11_decode_table : allPowSF (fun n =>
+theorem f11_decode_table : allPow (fun n =>
     (packed11bitToFloat (UInt32.ofNat n)).toNat == Spec.smallFloatBits n 6) 11 0 = true := by decide +kernel
 set_option maxRecDepth 100000 in
-theorem f10_decode_table : allPowSF (fun n =>
+theorem f10_decode_table : allPow (fun n =>
     (packed10bitToFloat (UInt32.ofNat n)).toNat == Spec.smallFloatBits n 5) 10 0 = true := by decide +kernel
 set_option maxRecDepth 100000 in
 /-- every code, decoded and re-encoded: the code itself if finite or Inf, the canonical NaN code otherwise -/
-theorem f11_reencode_table : allPowSF (fun n =>
+theorem f11_reencode_table : allPow (fun n =>
     ((floatTo11bit (packed11bitToFloat (UInt32.ofNat n))) &&& 0x7ff).toNat ==
       (if n / 64 == 31 && n % 64 != 0 then 0x7ff else n)) 11 0 = true := by decide +kernel
 set_option maxRecDepth 100000 in
-theorem f10_reencode_table : allPowSF (fun n =>
+theorem f10_reencode_table : allPow (fun n =>
     ((floatTo10bit (packed10bitToFloat (UInt32.ofNat n))) &&& 0x3ff).toNat ==
       (if n / 32 == 31 && n % 32 != 0 then 0x3ff else n)) 10 0 = true := by decide +kernel
 set_option maxRecDepth 100000 in
 /-- the encoder agrees with the specification on the decoded value of every code, its predecessor and
 its successor pattern (the binade/field boundaries) -/
-theorem f11_encode_spec_at_codes : allPowSF (fun n =>
+theorem f11_encode_spec_at_codes : allPow (fun n =>
     let f := packed11bitToFloat (UInt32.ofNat n)
     ((floatTo11bit f) &&& 0x7ff).toNat == Spec.smallFloatEncode f.toNat 6 &&
     ((floatTo11bit (f + 1)) &&& 0x7ff).toNat == Spec.smallFloatEncode (f + 1).toNat 6 &&
     ((floatTo11bit (f - 1)) &&& 0x7ff).toNat == Spec.smallFloatEncode (f - 1).toNat 6) 11 0 = true := by
   decide +kernel
 set_option maxRecDepth 100000 in
-theorem f10_encode_spec_at_codes : allPowSF (fun n =>
+theorem f10_encode_spec_at_codes : allPow (fun n =>
     let f := packed10bitToFloat (UInt32.ofNat n)
     ((floatTo10bit f) &&& 0x3ff).toNat == Spec.smallFloatEncode f.toNat 5 &&
     ((floatTo10bit (f + 1)) &&& 0x3ff).toNat == Spec.smallFloatEncode (f + 1).toNat 5 &&
